@@ -105,6 +105,26 @@ Proof.
   - rewrite IH; [lia|cbn in Hi; lia].
 Qed.
 
+(* With bounds sorted by a transitive <=, the chosen bucket is the only one whose
+   half-open range (previous bound, own bound] contains v. *)
+Theorem target_is_containing_range v ms i :
+  (forall x y z, f_leb O x y = true -> f_leb O y z = true -> f_leb O x z = true) ->
+  (forall a b x y, (a < b)%nat -> nth_error ms a = Some x -> nth_error ms b = Some y -> f_leb O x y = true) ->
+  is_target v ms i ->
+  forall m, nth_error ms i = Some m -> f_leb O v m = true ->
+  forall j mj, nth_error ms j = Some mj -> f_leb O v mj = true ->
+    (j = 0%nat \/ exists p, nth_error ms (pred j) = Some p /\ f_leb O v p = false) -> j = i.
+Proof.
+  intros Tr So (Hi & Bi & _) m Hm Lm j mj Hj Lj Hprev.
+  destruct (Nat.lt_trichotomy j i) as [L|[E|L]]; [|exact E|]; exfalso.
+  - rewrite (Bi j mj L Hj) in Lj. discriminate.
+  - destruct Hprev as [->|(p & Hp & Lp)]; [lia|].
+    destruct (Nat.eq_dec (pred j) i) as [E|N].
+    + rewrite E, Hm in Hp. injection Hp as <-. congruence.
+    + assert (Lt : (i < pred j)%nat) by lia.
+      pose proof (So i (pred j) m p Lt Hm Hp) as S. rewrite (Tr v m p Lm S) in Lp. discriminate.
+Qed.
+
 (* ---- one observation ---- *)
 
 Theorem observe_one_bucket (d : bdatum) (v : F) :
